@@ -235,8 +235,10 @@ def run_history(ctx: RunCtx, U) -> None:
                 if out.failed:
                     raise Violation("C20/map/poincare_map-raised", f"{out.kind()}: {out.exc} | history: {hist}")
                 # the manifold hands out ONE map object per (degree, energy): its configuration is part of that object's state
-                held = [o["map"] for o in cms if o["map"] is not None and o["map"]["real"] is out.value]
+                held = [mm for o in cms for mm in o.get("maps_seen", []) if mm["real"] is out.value]
                 c["map"] = held[0] if held else {"real": out.value, "last": {}, "strategy": "axis_aligned"}
+                if not held:
+                    c.setdefault("maps_seen", []).append(c["map"])   # the model keeps every map object it has seen: their state outlives the handle
                 if k == "map_refetch":
                     log.add("op", entry, "ok")
                     continue
